@@ -76,6 +76,16 @@ Theorem C16_all_apis : forall shell R cs q rs,
   g_log (run16 shell R ACapAsync cs q rs) = g_log (run16 shell R ACapSend cs q rs).
 Proof. exact all_apis. Qed.
 
+(* ---- link with C15: under pass-through middleware (none at all included) the app's event is the C15
+   classification of the shell's answer to the one request that reached it *)
+Theorem C16_outcome_is_C15_outcome : forall shell R mime_charset decode json cs rs q ic ir,
+  pass_ids cs = Some ic -> pass_ids rs = Some ir ->
+  g_events (run16 shell R ACapSend cs q rs) =
+  t_events (run mime_charset decode json ACap XBytes (shell (pass_request (cs ++ rs) q))) /\
+  g_panicked (run16 shell R ACapSend cs q rs) =
+  t_panicked (run mime_charset decode json ACap XBytes (shell (pass_request (cs ++ rs) q))).
+Proof. exact pass_stack_outcome_is_C15. Qed.
+
 (* ---- the trace predicate evaluated on the implementation holds of the model, for every case *)
 Theorem C16_ok_holds_of_model : forall c,
   stack_valid (c_client c) = true -> stack_valid (c_req c) = true ->
